@@ -29,7 +29,7 @@ def split_file(path, k, workdir, label):
     return [o.name for o in outs if os.path.getsize(o.name) > 0], n
 
 
-def judge_sharded(module, cfg, obs_path, workdir, label, parts=4, env=None, timeout=3000):
+def judge_sharded(module, cfg, obs_path, workdir, label, parts=4, env=None, timeout=7200):
     """Judge an ndjson file with several TLC JVMs in parallel (JSON loading is single-threaded)."""
     import concurrent.futures as cf
     files, n = split_file(obs_path, parts, workdir, label)
